@@ -25,6 +25,7 @@
 (*   "wrong"    a value of the wrong Go kind for the position              *)
 (*   "typednil" typed nil pointer "nan" NaN   "big" an Int out of range    *)
 (*   "badenum"  an internal value no enum value has                        *)
+(*   "goint"    the integer 5 (or 3000000000 if big) as Go type g          *)
 (*   "nilitem"  the natural list with its second element nil               *)
 (*   "wrongitem" ... with its second element a value of a foreign kind     *)
 (*   rt |-> runtime type name for abstract positions ("" = unresolvable),  *)
@@ -202,6 +203,10 @@ ExecField(E, ot, g, src, path) ==
                [] oc.k \in {"nil", "typednil", "nan"} -> CompleteV(E, fd.type, g, NullV, path)
                [] oc.k = "wrong" -> CompleteV(E, fd.type, g, [k |-> "wrong"], path)
                [] oc.k = "big" -> CompleteV(E, fd.type, g, IntV("over32"), path)
+               \* an integer delivered in another Go representation (int8 ... uint64, float, pointer):
+               \* 5, or 3000000000 when big; a nil pointer is null
+               [] oc.k = "goint" -> CompleteV(E, fd.type, g, IF oc.g = "nilp" THEN NullV
+                                                                  ELSE IntV(IF oc.big THEN "over32" ELSE "5"), path)
                [] oc.k = "badenum" -> CompleteV(E, fd.type, g, [k |-> "eint", v |-> "nope"], path)
                [] oc.k = "wrongitem" ->
                     LET nv == ValueFor(E.S, fd.type, ctag, fn, oc)
